@@ -35,7 +35,7 @@ def dmrg_specs(draw, tier):
             'E_shift': draw(st.sampled_from([None, None, None, -20.0, 5.0])), 'chi_max': draw(st.sampled_from([None, None, None, 2, 4, 8])),
             'chi_list': draw(st.booleans()), 'max_sweeps': draw(st.sampled_from([1, 2, 5, 30, 30, 30])), 'N_sweeps_check': draw(st.sampled_from([1, 1, 2, 3])),
             'combine': draw(st.booleans()), 'seed': draw(st.integers(0, 2 ** 20)), 'max_N_for_ED': draw(st.sampled_from([400, 2])),
-            'state': 'product', 'excited': draw(st.integers(0, 2)) == 0}
+            'state': 'product', 'excited': draw(st.integers(0, 2)) == 0, 'eph': draw(st.integers(0, 3)) == 0}
 
 
 def run_dmrg(spec):
@@ -83,6 +83,8 @@ def run_dmrg(spec):
         elif spec['chi_list']:
             opts['chi_list'] = {0: 2, 3: None}  # documented: None stands for trunc_params['chi_max'], i.e. untruncated from sweep 3 on
         tags = dict(engine=spec['engine'], mixer=str(mixer), diag=spec['diag'])
+        if spec.get('eph'):
+            tags['eph'] = True
         tags0 = dict(tags)
         cls = dmrg.SingleSiteDMRGEngine if single else dmrg.TwoSiteDMRGEngine
         eng = cls(psi, model, opts)
@@ -300,3 +302,76 @@ def run_infinite(spec):
 
 
 SUBCHECKS.append(Sub('infinite', inf_specs, run_infinite, quick=16, thorough=320))
+
+
+# ------------------------------------------------------------------------------------------------
+# infinite XXZ chain in the gapped antiferromagnetic phase: a Hamiltonian with genuine "A B + h.c." terms (unlike the TFI chain, whose
+# terms are all self-adjoint), with and without explicit_plus_hc; exact energy density from the Bethe ansatz
+
+
+def e0_xxz(delta):
+    """ground state energy per site of sum_i Sx Sx + Sy Sy + delta Sz Sz for delta > 1"""
+    gam = np.arccosh(delta)
+    ser = sum(1. / (np.exp(2 * n * gam) + 1.) for n in range(1, 2000))
+    return delta / 4. - np.sinh(gam) * (0.5 + 2. * ser)
+
+
+@st.composite
+def xxz_specs(draw, tier):
+    return {'Jz': draw(st.sampled_from([2.0, 3.0, 4.0])), 'explicit_plus_hc': draw(st.booleans()), 'conserve': draw(st.sampled_from([None, 'Sz'])),
+            'engine': draw(st.sampled_from(['dmrg2', 'vumps2', 'vumps2', 'vumps1'])), 'chi': draw(st.sampled_from([16, 24])), 'N_sweeps_check': draw(st.sampled_from([2, 4])),
+            'mixer': draw(st.sampled_from([None, True])), 'seed': draw(st.integers(0, 1000))}
+
+
+def run_xxz(spec):
+    from tenpy.algorithms import dmrg, vumps
+    from tenpy.models.xxz_chain import XXZChain2
+    from tenpy.networks.mps import MPS
+    with warnings.catch_warnings():
+        warnings.simplefilter('ignore')
+        kind = spec['engine']
+        L = 2
+        conserve = spec['conserve'] if kind != 'vumps1' else None  # (from_desired_bond_dimension does not support charges)
+        model = XXZChain2({'L': L, 'Jxx': 1., 'Jz': spec['Jz'], 'hz': 0., 'bc_MPS': 'infinite', 'conserve': conserve, 'explicit_plus_hc': spec['explicit_plus_hc']})
+        sites = model.lat.mps_sites()
+        mixer = spec['mixer'] if kind == 'dmrg2' else None
+        opts = {'mixer': mixer, 'combine': False, 'N_sweeps_check': spec['N_sweeps_check'], 'max_sweeps': 60, 'max_E_err': 1e-11, 'max_S_err': 1e-7,
+                'trunc_params': {'chi_max': spec['chi'], 'svd_min': 1e-10}, 'max_trunc_err': None}
+        if mixer is not None:
+            opts['mixer_params'] = {'amplitude': 1e-4, 'decay': 2., 'disable_after': 10}
+        if kind.startswith('vumps'):
+            opts['max_sweeps'] = 40
+        tags = dict(engine=kind, mixer=str(mixer), eph=spec['explicit_plus_hc'], model='XXZ')
+        if kind == 'vumps1':
+            np.random.seed(spec['seed'])
+            psi = MPS.from_desired_bond_dimension(sites, spec['chi'], bc='infinite', unit_cell_width=L)
+        else:
+            psi = MPS.from_product_state(sites, ['up', 'down'], bc='infinite', unit_cell_width=L)  # symmetry broken Neel state
+        cls = {'dmrg2': dmrg.TwoSiteDMRGEngine, 'vumps1': vumps.SingleSiteVUMPSEngine, 'vumps2': vumps.TwoSiteVUMPSEngine}[kind]
+        eng = cls(psi, model, opts)
+        E, psi = eng.run()
+        psi.test_sanity()
+        e_exact = e0_xxz(spec['Jz'])
+        nt = float(np.max(np.abs(psi.norm_test())))
+        if kind == 'vumps1' and nt > 1e-5:
+            raise Skip()  # random start: may end in a superposition of the two Neel states (non-injective, see `infinite`)
+        require(nt <= 1e-5, 'infinite-not-canonical', 'norm_test = %r > norm_tol = 1e-5' % nt, **tags)
+        require(abs(psi.norm - 1.) <= 1e-10, 'norm-not-1', 'psi.norm = %r' % psi.norm, **tags)
+        EH = float(np.real(model.H_MPO.expectation_value(psi)))
+        Eb = float(np.mean(psi.expectation_value(model.H_bond)))
+        require(abs(EH - Eb) <= 1e-8 + 10 * nt, 'infinite-energy-representations', 'MPO %r vs bonds %r (norm_test %r)' % (EH, Eb, nt), **tags)
+        require(EH >= e_exact - 1e-9, 'below-ground-state', '<H> per site = %r < exact %r' % (EH, e_exact), **tags)
+        err = float(np.max(eng.trunc_err_list)) if len(eng.trunc_err_list) else 0.
+        dE = abs(eng.sweep_stats['Delta_E'][-1]) if len(eng.sweep_stats.get('Delta_E', [])) else 0.
+        ne = abs(eng.sweep_stats['norm_err'][-1]) if len(eng.sweep_stats.get('norm_err', [])) else 0.
+        tol = max(1e-7, 10 * nt, 10 * ne, 100 * err, 100 * dE * spec['N_sweeps_check'])
+        if kind != 'vumps1':  # (single-site VUMPS with a two-site unit cell: known finding F65)
+            require(abs(E - EH) <= tol, 'energy-mismatch', 'E_run = %r, <H> of the returned state = %r (norm_test %r, trunc_err %r, %d sweeps)' % (E, EH, nt, err, eng.sweeps), **tags)
+            require(E >= e_exact - tol, 'E_run-below-ground-state', 'E_run = %r < exact %r' % (E, e_exact), **tags)
+            require(EH - e_exact <= 1e-5, 'infinite-not-converged', '<H> - e_exact = %r after %d sweeps, chi %r' % (EH - e_exact, eng.sweeps, psi.chi), **tags)
+        else:
+            require(EH - e_exact <= 1e-3, 'infinite-not-converged', '<H> - e_exact = %r after %d sweeps, chi %r' % (EH - e_exact, eng.sweeps, psi.chi), **tags)
+    return {'nontrivial': True, 'classes': ['xxz-engine:' + kind, 'eph:%s' % spec['explicit_plus_hc'], 'Jz=%s' % spec['Jz']]}
+
+
+SUBCHECKS.append(Sub('infinite_xxz', xxz_specs, run_xxz, quick=16, thorough=200))
